@@ -732,7 +732,10 @@ def builtinImpl (r : Rec N) (name : String) (args : List (Option (Val N))) :
   | "abs", [some (.num x)] => pure (some (.num (if lt x (ofInt 0) then neg x else if beq x (ofInt 0) then ofInt 0 else x)))
   | "floor", [some (.num x)] => pure (some (.num (floor x)))
   | "ceil", [some (.num x)] => pure (some (.num (ceil x)))
-  | "round", [some (.num x), p] => pure (some (.num (libRound x ((optInt p).getD 0))))
+  | "round", [some (.num x), p] =>
+      -- env.go roundToJSONNumber: an infinite result (rounding 1.7e308 to hundreds of digits left of the point) is an error
+      let r := libRound x ((optInt p).getD 0)
+      if isInf r || isNaN r then libErr "round" else pure (some (.num r))
   | "sqrt", [some (.num x)] => if lt x (ofInt 0) then libErr "sqrt" else pure (some (.num (sqrt x)))
   | "power", [some (.num x), some (.num y)] =>
       let r := pow x y
